@@ -24,7 +24,11 @@ func main() {
 			fmt.Println("compile error:", err)
 			return
 		}
-		out, err := tpl.Execute(c07Ctx())
+		ectx := c07Ctx()
+		if os.Getenv("VERIF_EVALCTX") == "c02" {
+			ectx = c02Ctx(false)
+		}
+		out, err := tpl.Execute(ectx)
 		fmt.Printf("%q err=%v\n", out, err)
 	case "gendiag":
 		diagExprOnly = len(os.Args) > 2
